@@ -1,20 +1,23 @@
 // h_ndmap.cpp -- records the tuples covfie::utility::nd_map passes to its callback
 #include <covfie/core/utility/nd_map.hpp>
 #include <covfie/core/utility/nd_size.hpp>
+#include <cstdint>
 #include "vh_io.hpp"
 
-template <std::size_t N>
+// T: the index type of the extent tuple (the library's own callers use std::size_t; the template takes any)
+template <typename T, std::size_t N>
 static std::string run(const std::vector<std::string> & a)
 {
-    covfie::utility::nd_size<N> s;
-    for (std::size_t i = 0; i < N; ++i) s[i] = vh::u64(a[1 + i]);
+    using tuple_t = covfie::array::array<T, N>;
+    tuple_t s;
+    for (std::size_t i = 0; i < N; ++i) s[i] = static_cast<T>(vh::u64(a[1 + i]));
     std::string out;
-    covfie::utility::nd_map<covfie::utility::nd_size<N>>(
-        [&out](covfie::utility::nd_size<N> t) {
+    covfie::utility::nd_map<tuple_t>(
+        [&out](tuple_t t) {
             if (!out.empty()) out += ';';
             for (std::size_t i = 0; i < N; ++i) {
                 if (i) out += ',';
-                out += std::to_string(t[i]);
+                out += std::to_string(static_cast<unsigned long long>(t[i]));
             }
         },
         s
@@ -22,17 +25,26 @@ static std::string run(const std::vector<std::string> & a)
     return out.empty() ? "-" : out;
 }
 
+template <typename T>
+static std::string run_n(const std::vector<std::string> & a)
+{
+    switch (std::stoi(a[0])) {
+    case 1: return run<T, 1>(a);
+    case 2: return run<T, 2>(a);
+    case 3: return run<T, 3>(a);
+    case 4: return run<T, 4>(a);
+    case 5: return run<T, 5>(a);
+    }
+    return "BAD_CASE";
+}
+
 int main()
 {
     return vh::main_loop([](const std::string & kind, const std::vector<std::string> & a) -> std::string {
-        if (kind != "ndmap") return "BAD_CASE";
-        switch (std::stoi(a[0])) {
-        case 1: return run<1>(a);
-        case 2: return run<2>(a);
-        case 3: return run<3>(a);
-        case 4: return run<4>(a);
-        case 5: return run<5>(a);
-        }
+        if (kind == "ndmap") return run_n<std::size_t>(a);
+        if (kind == "ndmap8") return run_n<std::uint8_t>(a);
+        if (kind == "ndmap16") return run_n<std::uint16_t>(a);
+        if (kind == "ndmap32") return run_n<std::uint32_t>(a);
         return "BAD_CASE";
     });
 }
